@@ -549,9 +549,9 @@ func cmdCheck(args []string) int {
 		} else {
 			seed = uint64(v)
 		}
-	} else if *tier == "thorough" {
-		seed = uint64(time.Now().UnixNano())
 	}
+	// (no VERIF_SEED: the same built-in seed for both tiers, so that "the thorough tier on the unchanged
+	// tree" is a repeatable statement; other seeds are one environment variable away)
 	fmt.Printf("verifsim: property=%s tier=%s seed=%d\n", prop, *tier, int64(seed))
 
 	if err := buildWorker(); err != nil {
